@@ -120,7 +120,7 @@ def gen(fam, r):
             A[0][0] = 1.0
         if fam == "denoise" and m == 1:
             A = [row + [1.0] for row in A]  # a one-column matrix has a 0-d background model (degenerate)
-        return {"A": A, "approx": r.random() < 0.5, "prior_strength": r.choice([1e-4, 0.1]), "normalize": r.random() < 0.5, "em_prior": r.choice([0.3, 5.0])}
+        return {"A": A, "layout": r.choice(["csr", "csc-unsorted"]), "approx": r.random() < 0.5, "prior_strength": r.choice([1e-4, 0.1]), "normalize": r.random() < 0.5, "em_prior": r.choice([0.3, 5.0])}
     if fam == "distances":
         from vv.props.C18 import gen_pair, gen_helper
         if r.random() < 0.25:
@@ -247,6 +247,13 @@ def execute(fam, c):
         from vectorizers.transformers import InformationWeightTransformer
 
         A = sp.csr_matrix(np.array(c["A"]))
+        if c.get("layout") == "csc-unsorted":
+            A = sp.csc_matrix(np.array(c["A"]))
+            for j in range(A.shape[1]):
+                lo, hi = A.indptr[j], A.indptr[j + 1]
+                A.indices[lo:hi] = A.indices[lo:hi][::-1].copy()
+                A.data[lo:hi] = A.data[lo:hi][::-1].copy()
+            A.has_sorted_indices = False
         e = InformationWeightTransformer(prior_strength=c["prior_strength"], approx_prior=c["approx"]).fit(A)
         out["weights"] = np.asarray(e.information_weights_)
         return out
